@@ -820,7 +820,109 @@ func (c *Ctx) c18Attr() {
 	if !styleOK {
 		probs = append(probs, "a style attribute's value does not pass the CSS filter (selected by strings.ToLower(key) == \"style\") before it is written")
 	}
+	// a tag that has attributes is rebuilt from its filtered attributes; its raw bytes (z.Raw(),
+	// or a copy of them) are written only for tokens without attributes
+	for _, g := range sanFns {
+		g := g
+		var hasAttr []ssa.Value
+		raw := map[ssa.Value]bool{}
+		eng.EachInstr(g, func(in ssa.Instruction) {
+			call, ok := in.(*ssa.Call)
+			if !ok {
+				return
+			}
+			switch eng.CalleeName(call.Common()) {
+			case "(*golang.org/x/net/html.Tokenizer).TagName":
+				if call.Referrers() != nil {
+					for _, ref := range *call.Referrers() {
+						if ex, isEx := ref.(*ssa.Extract); isEx && ex.Index == 1 {
+							hasAttr = append(hasAttr, ex)
+						}
+					}
+				}
+			case "(*golang.org/x/net/html.Tokenizer).Raw":
+				raw[call] = true
+			}
+		})
+		if len(hasAttr) == 0 || len(raw) == 0 {
+			continue
+		}
+		// copies of the raw bytes: append(x, raw...), slices of them, locals that hold them
+		for grew := true; grew; {
+			grew = false
+			eng.EachInstr(g, func(in ssa.Instruction) {
+				v, isV := in.(ssa.Value)
+				if !isV || raw[v] {
+					return
+				}
+				hit := false
+				switch y := in.(type) {
+				case *ssa.Call:
+					if eng.CalleeName(y.Common()) == "builtin.append" {
+						for _, a := range y.Call.Args[1:] {
+							hit = hit || raw[a]
+						}
+						hit = hit || raw[y.Call.Args[0]]
+					}
+				case *ssa.Slice:
+					hit = raw[y.X]
+				case *ssa.Phi:
+					for _, e := range y.Edges {
+						hit = hit || raw[e]
+					}
+				case *ssa.Convert:
+					hit = raw[y.X]
+				case *ssa.UnOp:
+					if y.Op == token.MUL {
+						if cell, isCell := y.X.(*ssa.Alloc); isCell {
+							for _, cs := range eng.CellStores(cell) {
+								hit = hit || raw[cs.Val]
+							}
+						}
+					}
+				}
+				if hit {
+					raw[v] = true
+					grew = true
+				}
+			})
+		}
+		eng.EachInstr(g, func(in ssa.Instruction) {
+			cc := eng.CallOf(in)
+			if cc == nil {
+				return
+			}
+			name := eng.CalleeName(cc)
+			if cc.IsInvoke() {
+				name = cc.Method.Name()
+			}
+			if !strings.HasSuffix(name, "Write") && !strings.HasSuffix(name, "WriteString") {
+				return
+			}
+			writesRaw := false
+			for _, a := range cc.Args {
+				writesRaw = writesRaw || raw[a]
+			}
+			if !writesRaw {
+				return
+			}
+			for _, b := range g.Blocks {
+				for k := 0; k < len(b.Succs) && len(b.Succs) == 2; k++ {
+					v, pol, ok := eng.CondTruth(b, k)
+					if !ok || !pol || !eng.EdgeDominates(b, k, in.Block()) {
+						continue
+					}
+					for _, ha := range hasAttr {
+						if v == ha {
+							probs = append(probs, "the raw bytes of a tag that has attributes are written to the output at "+p.InstrPos(in)+": whatever its attributes carry (a second style attribute, say) reaches the policy stage unfiltered")
+						}
+					}
+				}
+			}
+		})
+	}
 	sort.Strings(probs)
+	probs = dedupStrings(probs)
 	if len(probs) > 0 {
 		r.Bad("C18/ATTR", "tag-rewriter", p.InstrPos(tagAttr), "%s", strings.Join(probs, "; "))
 	} else {
